@@ -174,11 +174,10 @@ def _split_image(c, m, x, y, a, b):
     return c.or_(*alts)
 
 
-@contract("MeshPatt._add_point_new_perm", params={"self": "Mesh", "x": "int", "y": "int"}, returns="Perm", props=("C18",), assumed=True)
+@contract("MeshPatt._add_point_new_perm", params={"self": "Mesh", "x": "int", "y": "int"}, returns="Perm", props=("C18",))
 class AddPointNewPerm:
-    # ASSUMED (the body threads one stateful iterator through two generator expressions, outside the
-    # subset; the bounded layer C18.add_point decides it): the pattern with a new point at position x
-    # with value y, values >= y moved up
+    # the pattern with a new point at position x with value y, values >= y moved up (the body threads one
+    # stateful iterator through two generator expressions: rule ITERATOR-SPLIT)
     def requires(c, self, x, y):
         n = c.len(self.pattern)
         return c.and_(c.is_mesh(self), 0 <= c.int(x), c.int(x) <= n, 0 <= c.int(y), c.int(y) <= n)
@@ -192,6 +191,16 @@ class AddPointNewPerm:
             c.forall(0, n, lambda i: result[c.ite(c.int(i) < x, i, i + 1)] == c.ite(p[i] < y, p[i], p[i] + 1)),
             c.is_perm(result),
         )
+
+    def ghost_inverse(c, self, x, y, result):
+        g = self.pattern.meta["ginv"]
+
+        def where(v):
+            v = c.int(v)
+            p0 = g(c.ite(v < y, v, v - 1))  # position of the old value in the old pattern
+            return c.ite(v == y, x, c.ite(p0 < x, p0, p0 + 1))
+
+        return where
 
 
 @contract("MeshPatt.add_point", params={"self": "Mesh", "pos": "Cell", "shade_dir": "int"}, returns="Mesh", props=("C18",))
